@@ -475,6 +475,10 @@ def leg_cache(ctx, rng):
         yield "hit", [k(0)], [[k(0)], [k(2)]]
         yield "same-key", [k(0)], [[k(1)], [k(1)]]
         yield "both-hit", [k(0), k(1)], [[k(1)], [k(0)]]
+        if not ctx.quick:
+            yield "three-threads", [], [[k(1)], [k(2)], [k(3)]]
+            yield "two-entries", [k(0), k(4)], [[k(1)], [k(2)]]
+            yield "two-calls", [], [[k(1), k(2)], [k(2)]]
 
     budget = 2500 if ctx.quick else 40000
     for kind, K, meth in (("t", P, "transpose"), ("r", R, "reshape")):
@@ -668,7 +672,7 @@ def stress_traced(ctx, rng, mode):
     from c11 import diff_snap, outcome, snapshot
 
     base = baseline_of(ctx.seed)  # also compiles every kernel the calls need
-    n_sched = 30 if ctx.quick else 600
+    n_sched = 60 if ctx.quick else 1500
     stats = {"schedules": 0, "quanta": 0, "calls": 0, "switches": 0, "deadline_s": 0.0}
 
     def wanted(code):
@@ -738,7 +742,7 @@ def child_main(seed, quick):
 
     rng = gen.rng_for(seed, "C13-free")
     sys.setswitchinterval(1e-5)
-    rounds = 6 if quick else 60
+    rounds = 6 if quick else 150
     fails, ncalls, nth_used = [], 0, []
     first = True
     for r in range(rounds):
@@ -784,20 +788,27 @@ def child_main(seed, quick):
     return 0
 
 
-def stress_free(ctx, mode, witness_reproduced):
+def start_free(ctx):
+    """launch the free-running stress in a fresh interpreter (it runs while the traced legs do)"""
     env = dict(os.environ)
     env.setdefault("NUMBA_CACHE_DIR", "/var/tmp/verif-numba-cache")
-    t0 = time.time()
+    return time.time(), subprocess.Popen([sys.executable, str(Path(__file__).resolve()), "--child", str(ctx.seed), "1" if ctx.quick else "0"],
+                                         stdout=subprocess.PIPE, stderr=subprocess.PIPE, text=True, env=env)
+
+
+def collect_free(ctx, started, mode, witness_reproduced):
+    t0, proc = started
     try:
-        r = subprocess.run([sys.executable, str(Path(__file__).resolve()), "--child", str(ctx.seed), "1" if ctx.quick else "0"],
-                           capture_output=True, text=True, timeout=150 if ctx.quick else 1500, env=env)
+        out, err = proc.communicate(timeout=max(30.0, (240 if ctx.quick else 3000) - (time.time() - t0)))
     except subprocess.TimeoutExpired:
+        proc.kill()
+        proc.communicate()
         ctx.broke("infrastructure:free-stress", "subprocess deadline exceeded")
         return
     try:
-        res = json.loads(r.stdout.strip().splitlines()[-1])
+        res = json.loads(out.strip().splitlines()[-1])
     except Exception:  # noqa: BLE001
-        ctx.broke("infrastructure:free-stress", f"child rc={r.returncode}: {r.stderr[-400:]}")
+        ctx.broke("infrastructure:free-stress", f"child rc={proc.returncode}: {err[-400:]}")
         return
     if "infra" in res:
         ctx.broke("infrastructure:free-stress", res["infra"])
@@ -830,14 +841,18 @@ def run(ctx):
     ]
     core.prove(ctx, PID, uses=[])
     rng = gen.rng_for(ctx.seed, PID)
-    mode = leg_cache(ctx, rng)
-    leg_memo(ctx, rng)
-    if mode is not None:
-        stress_traced(ctx, rng, mode)
-        witness = any(f.get("finding") == "F-cache-iter" and f["family"] == "cache-schedule" for f in ctx.failures)
-        stress_free(ctx, mode, witness)
+    free = start_free(ctx)
+    try:
+        mode = leg_cache(ctx, rng)
+        leg_memo(ctx, rng)
+        if mode is not None:
+            stress_traced(ctx, rng, mode)
+    except BaseException:
+        free[1].kill()
+        raise
+    witness = any(f.get("finding") == "F-cache-iter" and f["family"] == "cache-schedule" for f in ctx.failures)
+    collect_free(ctx, free, mode or "live", witness)
     ce, me = ctx.notes.get("cache_exploration", {}), ctx.notes.get("memo_exploration", {})
-    ctx.cov["states"] = ce.get("fine_steps", 0) + me.get("quanta", 0) + 1
     ctx.cov["transitions"] = ce.get("fine_steps", 0) + me.get("quanta", 0)
     ctx.cov["traces_validated_against_impl"] = ce.get("runs", 0) + me.get("runs", 0)
     ctx.cov["rule"] = (
